@@ -283,6 +283,14 @@ theorem C04_link_all (o : Options) (s : Spec.Script) (c : Compiled) (hf : JsLink
     ∃ text, modelGenJs c.lscr c.lnam = some text ∧ readJs text = some (toJs o.scrNum s) :=
   js_link_all o s c hf hnum hc hn.1 hn.2
 
+/-- … and with the STRICT reader the check uses (`readJsStrict`, F141: no declared name — function, parameter, `var` — is a reserved word of
+    JavaScript; class bodies are strict-mode code): the side condition is a decidable fact about the translation `toJs s` alone -/
+theorem C04_link_all_strict (o : Options) (s : Spec.Script) (c : Compiled) (hf : JsLinkScriptT s = true) (hnum : o.scrNum < 32768)
+    (hc : compile o s = .ok c) (hn : NamesOk c) (hres : (toJs o.scrNum s).all JTop.namesOk = true) :
+    ∃ text, modelGenJs c.lscr c.lnam = some text ∧ readJsStrict text = some (toJs o.scrNum s) := by
+  obtain ⟨text, h1, h2⟩ := C04_link_all o s c hf hnum hc hn
+  exact ⟨text, h1, by simp only [readJsStrict, h2, Option.bind_some, hres, if_true]⟩
+
 /-- the flat fragment of `C04_link` lies inside `JsLinkScriptT` -/
 theorem C04_link_all_extends (s : Spec.Script) (hf : JsLinkScript s = true) : JsLinkScriptT s = true := jsLinkScript_T s hf
 
@@ -328,6 +336,8 @@ def exAll : Spec.Script :=
         body := [ .set (.var .prop "pLast".toList) (.var .param "a".toList), .exit ] } ] }
 
 example : JsLinkScriptT exAll = true := by decide +kernel
+
+example : (toJs 0 exAll).all JTop.namesOk = true := by decide +kernel
 
 /-- it is outside the flat fragment of `C04_link` -/
 example : JsLinkScript exAll = false := by decide +kernel
